@@ -89,3 +89,7 @@ add("C06.strongest_one","VH_c06_strongest",BGP,c06,{"two":0},{"two":0},merge=UM,
 add("C06.strongest_two","VH_c06_strongest",BGP,c06,{"two":1},{"two":1},merge=UM,expect_reach=["end"],bounds="the same base UPDATE with every compatible unordered pair of faults of the catalogue")
 add("C06.treat_as_withdraw","VH_c06_treat_as_withdraw",TBL,tc+["table/c06.go","table/c02.go","table/c03.go","table/c14.go"],{"segs":1},{"segs":1},expect_reach=["end"],bounds="UPDATE naming 5 prefixes (2 NLRI, 1 withdrawn, 1 MP_REACH, 1 MP_UNREACH) with symbolic address bytes, treat-as-withdraw symbolic")
 add("C06.handling_error","VH_c06_handling_error",SRV,sc+["server/c06.go"],expect_reach=["end"],bounds="every error class x message type x revised error handling on/off")
+for two in (0,1):
+    add("C06.recvloop_%s"%("two" if two else "one"),"VH_c06_recvloop",SRV,sc+["server/c06.go","server/c06cat.go"],{"two":two},{"two":two},merge=UM,expect_reach=["install","withdraw","reset"],bounds="the real recvMessageloop reading one UPDATE (base + %s catalogue fault(s)) from a scripted transport; eBGP/iBGP x revised error handling on/off"%("two" if two else "one"))
+add("C02.server_history","VH_c02_server_history",SRV,sc+["server/c02.go"],{"params":{"steps":2},"unwind":2200},{"params":{"steps":3},"unwind":2200},expect_reach=["installed","looped"],bounds="real BgpServer.handleFSMMessage, one eBGP peer, one prefix, every history of 2 (quick) / 3 UPDATEs over {clean announce (symbolic AS), looped announce, withdraw}")
+add("C01.server_fanout","VH_c01_server_fanout",SRV,sc+["server/c01.go"],{"params":{"steps":2},"unwind":2200},{"params":{"steps":3},"unwind":2200},expect_reach=["advertised","empty"],bounds="real BgpServer.handleFSMMessage; 4 established peers (eBGP source, iBGP source, eBGP target, iBGP target), one prefix, every history of 2 (quick) / 3 UPDATEs (source, announce with symbolic AS / withdraw); observed at each peer's outgoing queue")
